@@ -256,6 +256,12 @@ func genValueInterface(n *node) func(*frame) reflect.Value {
 			return v
 		}
 
+		if v.IsValid() && v.CanAddr() {
+			// An interface value holds a copy of the value it is set from, not the variable.
+			c := reflect.New(v.Type()).Elem()
+			c.Set(v)
+			v = c
+		}
 		return reflect.ValueOf(valueInterface{nod, v})
 	}
 }
